@@ -49,7 +49,7 @@ PROPS = {
     ),
     'C14': dict(
         title='Equality, ordering and logic obey their algebraic laws',
-        verus=['val_ops', 'fold'], kani=['c14_'],
+        verus=['laws', 'val_ops', 'fold'], kani=['c14_'],
         technique=K + ' proving the laws directly on compiled equals/compare/fold for all scalar payloads + ' + V +
                   ' (tables from which the laws follow for all six kinds)',
     ),
@@ -75,6 +75,64 @@ PROPS = {
                       'Linter::run, repeated-identifier rule match_or_update / visit_function_call) + Kani recording '
                       'visitors for the ExprVisitorRunner traversal the pass runs on',
     ),
+    'C01': dict(
+        title='Lexing and parsing are total',
+        verus=['lexer', 'tables'], kani=['c01_'],
+        technique=V + ' — PARTIAL: slicing preconditions (valid char-boundary slice = no out-of-bounds read in debug or '
+                      'release) and u32 column arithmetic of the lexer primitives; every get_*_operator(..).unwrap() token '
+                      'list extracted from parser.rs call sites proved total. Not decided: match_loop / scan_delimited / '
+                      'tokenize_word and all parser combinators (closures capturing &mut self; Kani does not terminate)',
+        level_note='partial: lexer match_loop, scan_delimited, tokenize_word, scan_number, the whole parser and '
+                   'Display for ParseError are NOT under contract (listed in DESIGN.md §5 C01); assumed: find_next_word_end, '
+                   'substr, KEYWORDS lookup, std str functions',
+    ),
+    'C02': dict(
+        title='Every spelling of a program parses to the same syntax tree',
+        verus=['tables'], kani=[],
+        technique=V + ' — PARTIAL (tables only): get_unary/binary/mutation_operator, get_rounding_direction, '
+                      'is_literal_word, Block::new against reference tables. The parser as a whole is not decided',
+        level_note='partial: only the token -> operator tables; KEYWORDS alias table, precedence ladder and the parser '
+                   'combinators are not under contract (DESIGN.md §5 C02)',
+    ),
+    'C09': dict(
+        title='Running any parseable program never crashes the interpreter',
+        verus=['val_ops', 'val_arrays', 'val_mut', 'fold', 'exec_flow', 'exec_glue', 'exec_io', 'env', 'call', 'folder',
+               'linter', 'boring', 'visit_runner'],
+        kani=['c09_'],
+        panic_site_files=['src/exec/write_val.rs', 'src/exec/val.rs', 'src/exec/produce_val.rs', 'src/exec/exec_stmt.rs',
+                          'src/exec/sym_table.rs', 'src/exec/environment.rs', 'src/frontend/ast.rs', 'src/exec/display.rs',
+                          'src/exec/val/display.rs'],
+        technique=V + ' — PARTIAL: every panic / unchecked-unsafe site (unwrap, unchecked_unwrap, unreachable_unchecked, '
+                      'unreachable!, debug_assert!, inner!, integer overflow, std preconditions such as from_str_radix) inside a '
+                      'function under contract is a proof obligation (rewritten to unreached()/requires); sites are '
+                      'enumerated mechanically and the ones not under contract are reported, not passed',
+        level_note='partial: evidence.coverage.panic_site_coverage lists every site outside a discharged contract '
+                   '(write_val.rs, sym_table.rs, ast.rs compute_value, display code)',
+    ),
+    'C11': dict(
+        title='Poetic literals denote the number or string their words spell',
+        verus=['tables'], kani=['c11_'],
+        technique='PARTIAL: Kani bounded harness for PoeticNumberLiteral::word_len (all valid UTF-8 strings of <= 4 bytes, '
+                  'labelled bounded) + Verus is_literal_word (the literal-vs-expression decision table). compute_value, '
+                  'the parser side and poetic strings are not decided',
+        level_note='partial and mostly bounded: see DESIGN.md §5 C11',
+    ),
+    'C12': dict(
+        title='Tokens carry their exact spelling and true source position',
+        verus=['lexer'], kani=['c12_'],
+        technique=K + ' (SourceRange / SourceLocation algebra, all u32) + ' + V + ' — PARTIAL: single-token constructors '
+                      '(spelling = buf[start..end], range = that span on the current line, newline bookkeeping, suffix after a '
+                      'multi-line literal, error tokens). Token tiling by match_loop / scan_delimited / tokenize_word is not decided',
+        level_note='partial: see DESIGN.md §5 C12',
+    ),
+    'C18': dict(
+        title='Constant-assignment lint is exact and its suggested rewrite is equivalent',
+        verus=['boring', 'folder'], kani=['c18_'],
+        technique=V + ' — PARTIAL: report condition of visit_assignment / visit_poetic_number_assignment, no suggestion '
+                      'without a poetic spelling, digit -> word template, as_text bytes (ASCII => from_utf8_unchecked sound), '
+                      'from_value domain (no underflow). Re-parsing the suggestion is not decided (parser out of reach)',
+        level_note='partial: see DESIGN.md §5 C18; assumed: f64 Display of a finite sign-positive value uses digits and "." only',
+    ),
 }
 
 NOT_APPLICABLE = {
@@ -85,7 +143,5 @@ NOT_APPLICABLE = {
            'reach of both verifiers (closures capturing &mut self; Kani does not terminate on 3 input bytes)',
     'C20': 'process-level behaviour (argv, files, stdout/stderr, exit status, clap): neither verifier models a process '
            'boundary; cli/ is glue over print!/eprintln!',
-    # not yet built (will move to PROPS when their units exist)
-    'C01': 'not yet built', 'C02': 'not yet built', 'C09': 'not yet built', 'C11': 'not yet built',
-    'C12': 'not yet built', 'C13': 'not yet built', 'C18': 'not yet built',
+    'C13': 'not yet built',
 }
